@@ -6,7 +6,7 @@ import itertools
 import numpy as np
 
 SPECS = [(0.0, 1.0, 0.01), (0.0, 1.0, 0.3), (-1.0, 1.0, 0.1), (0.0, 0.95, 0.1), (-3.3, 7.1, 0.7), (1000.0, 1001.0, 0.25), (-1e-3, 1e-3, 3e-4), (0.0, 1e6, 1e5 / 3),
-         (5.0, 6.0, 1.0 / 3.0), (-2.0, -1.0, 0.125), (0.0, 1.0, 0.07), (0.0, 10.0, 3.0)]
+         (5.0, 6.0, 1.0 / 3.0), (-2.0, -1.0, 0.125), (0.0, 1.0, 0.07), (0.0, 10.0, 3.0), (0.0, 100.0, 2.5)]
 SUB6 = [0, 1, 3, 4, 5, 11]
 SUB4 = [1, 3, 4, 8]
 SUB2 = [1, 4]
